@@ -467,6 +467,10 @@ class SymArray(np.ndarray):
         r = np.ndarray.__getitem__(self, idx)
         return r
 
+    def __iter__(self):
+        for i in range(len(self)):
+            yield np.ndarray.__getitem__(self, i)
+
     def __setitem__(self, idx, v):
         raise Unsupported("in-place item assignment on a traced array (JAX arrays are immutable)")
 
@@ -1274,6 +1278,7 @@ jax = _ns("jax", numpy=jnp, lax=lax, vmap=vmap, checkpoint=_checkpoint, tree_uti
           Array=object)
 
 DEFAULT_OVERRIDES = {
+    "pi": Sym(z3.Real("PI")),        # math.pi is treated as the real number pi
     "jnp": jnp, "jax": jax, "lax": lax, "vmap": vmap, "scatter_add": scatter_add,
     "ScatterDimensionNumbers": ScatterDimensionNumbers, "fori_loop": fori_loop,
 }
